@@ -165,6 +165,8 @@ class Explorer:
         self.timeout_s = timeout_s
         self.t0 = time.time()
         self.ticks = {}
+        self.known = {}
+        self._keep = []
         self.axioms_used = set()
 
     # -- naming
@@ -255,6 +257,21 @@ class Explorer:
         cond = bsimp(cond)
         if cond is True or cond is False:
             return cond
+        # conditions already decided on this path (syntactic cache; implied decisions are not recorded in the trace)
+        cid = cond.get_id()
+        known = self.known.get(cid)
+        if known is not None:
+            return known
+        if z3.is_not(cond):
+            k2 = self.known.get(cond.arg(0).get_id())
+            if k2 is not None:
+                return not k2
+        r = self._decide(cond)
+        self.known[cid] = r
+        self._keep.append(cond)
+        return r
+
+    def _decide(self, cond):
         i = len(self.trace)
         if i < len(self.prefix):
             d = self.prefix[i]
@@ -339,6 +356,8 @@ class Explorer:
             self.model = None
             self.apps = {}
             self.ticks = {}
+            self.known = {}
+            self._keep = []
             self.solver.push()
             EX = self
             try:
